@@ -142,8 +142,9 @@ func (sc *SearchCache) generateCacheKey(query string, options SearchOptions) str
 	// Serialize to JSON for consistent key generation
 	jsonData, err := json.Marshal(keyData)
 	if err != nil {
-		// Fallback to simple key if JSON marshaling fails
-		return fmt.Sprintf("%s%s:%d", sc.keyPrefix, normalizedQuery, options.Limit)
+		// JSON cannot encode non-finite numbers (an infinite boost). Render the options
+		// instead, so that the key still covers every field of the request.
+		jsonData = []byte(fmt.Sprintf("%s|%#v", normalizedQuery, options))
 	}
 
 	// Generate SHA256 hash for compact key (more secure than MD5)
